@@ -1421,6 +1421,32 @@ def sub_cond(case):
     return acc.result()
 
 
+COND_BODIES = [[], [0x51], [0x00], [0x52]]
+
+
+def sub_condbody(case):
+    """case = {'kind': OP_IF/OP_NOTIF, 'nelse': k, 'outer': bool}: every assignment of a body from COND_BODIES (empty,
+    OP_1, OP_0, OP_2) to each of the k+1 branches - bodies that are EQUAL or EMPTY included, which distinct markers
+    never are - x every condition value; outer = the whole conditional nested in the taken branch of an outer IF."""
+    acc = Acc()
+    kind, nelse = case['kind'], case['nelse']
+    for bodies in itertools.product(range(len(COND_BODIES)), repeat=nelse + 1):
+        for cond in COND_VALUES:
+            prog = [cond, kind]
+            for j, b in enumerate(bodies):
+                if j:
+                    prog.append(0x67)
+                prog += COND_BODIES[b]
+            prog.append(0x68)
+            if case.get('outer'):
+                prog = [b'\x01', 0x63] + prog + [0x67, 0x53, 0x68]
+            devs, out, nt = compare_program(prog)
+            acc.n += 2
+            acc.add('%x:%d:%s:%s:%d' % (kind, nelse, ''.join(map(str, bodies)), cond.hex() or '-', bool(case.get('outer'))),
+                    devs, out, nt)
+    return acc.result()
+
+
 _COND = []
 
 
@@ -2002,7 +2028,7 @@ def reeval_programs():
 
 
 
-SUBS = {'op_direct': sub_op_direct, 'op_eval': sub_op_eval, 'prog': sub_prog, 'cond': sub_cond, 'sig': sub_sig,
+SUBS = {'op_direct': sub_op_direct, 'op_eval': sub_op_eval, 'prog': sub_prog, 'cond': sub_cond, 'condbody': sub_condbody, 'sig': sub_sig,
         'multisig': sub_multisig, 'locktime': sub_locktime, 'hist': sub_hist, 'reeval': sub_reeval}
 
 
@@ -2089,6 +2115,9 @@ def run(ctx):
                                     'alphabet_symbols': [show([x]) for x in PROG_ALPHA],
                                     'reduced_symbols': [show([x]) for x in RED_ALPHA]})
     # (c) conditionals
+    if want('condbody'):
+        ctx.pmap('condbody', [{'kind': k, 'nelse': ne, 'outer': o} for k in (0x63, 0x64) for ne in range(0, 4 if q else 5)
+                              for o in (False, True)], chunk=1)
     if want('cond'):
         nshape = len(_cond_all())
         step = 8
